@@ -20,6 +20,7 @@ import (
 
 	"verif/harness/evid"
 	"verif/harness/gen"
+	"verif/harness/ir"
 	"verif/harness/layout"
 )
 
@@ -287,9 +288,17 @@ func c14Gen(t *rapid.T, rec *evid.Recorder) c14Case {
 		}
 		c.Specs = append(c.Specs, s)
 	}
-	g := &gen.Syn{R: r, MaxDepth: 1 + r.Intn(3, "depth"), StmtDepth: r.Intn(3, "sdepth"), Tpl: true}
+	g := &gen.Syn{R: r, MaxDepth: 1 + r.Intn(3, "depth"), StmtDepth: r.Intn(3, "sdepth"), Tpl: true, RichStr: true, MultiTpl: true}
 	for i, n := 0, 2+r.Intn(5, "ninputs"); i < n; i++ {
 		tree := g.Program(4)
+		if r.Intn(3, "escapes") == 0 {
+			// a statement full of escapes of every family (the lexer decodes and re-encodes them)
+			args := []*ir.Node{ir.N(ir.Ident, "print")}
+			for k, m := 0, 2+r.Intn(6, "nstr"); k < m; k++ {
+				args = append(args, r.RichStr(10))
+			}
+			tree.Kids = append(tree.Kids, ir.N(ir.ExprStmt, "", ir.N(ir.Call, "", args...)))
+		}
 		src, toks := layout.Source(r, tree, layout.Options{Random: true, ASI: true, Comments: true})
 		switch r.Intn(4, "inputkind") {
 		case 0:
